@@ -42,12 +42,15 @@ type mfid struct {
 func (f *mfid) deleted() bool { return f.h != nil && f.h.Gone() }
 
 type sessModel struct {
-	fids map[uint32]*mfid
+	// maybe: fid numbers whose bound-ness is not predicted any more (a
+	// backend panic interrupted a request that was to bind or unbind them).
+	maybe map[uint32]bool
+	fids  map[uint32]*mfid
 	// version negotiated (for information only)
 	msize uint32
 }
 
-func newSessModel() *sessModel { return &sessModel{fids: map[uint32]*mfid{}} }
+func newSessModel() *sessModel { return &sessModel{fids: map[uint32]*mfid{}, maybe: map[uint32]bool{}} }
 
 type verdict struct {
 	// reject: the request must be answered Rlerror with one of these codes
@@ -104,6 +107,22 @@ func canOpenKind(k simfs.Kind) bool {
 func (s *sessModel) judge(req rc.Message) verdict {
 	v := s.judge1(req)
 	fids := fidsOf(req)
+	for _, f := range fids {
+		if s.maybe[f] {
+			// nothing is predicted; keep whatever binding effect a success has
+			inner := v.onOK
+			return verdict{unjudged: true, onOK: func(calls []*simfs.Call, rep rc.Message) {
+				if inner != nil {
+					inner(calls, rep)
+				}
+				for _, f := range fids {
+					if m := s.fids[f]; m != nil {
+						m.unknown = true
+					}
+				}
+			}}
+		}
+	}
 	tainted := false
 	for _, f := range fids {
 		if m := s.fids[f]; m != nil && m.unknown {
@@ -694,11 +713,27 @@ func (s *sessModel) checkStep(find func(oracle, key, format string, args ...inte
 			real = append(real, c)
 		}
 	}
-	if v.onAny != nil {
-		defer v.onAny()
-	}
+	defer func() {
+		if v.onAny != nil {
+			v.onAny()
+		}
+	}()
 	if rv, ok := rep.(*rc.Rversion); ok && rv.Msize > 0 {
 		s.msize = rv.Msize
+	}
+	// did the backend panic?  Only containment is promised: EFAULT, and no
+	// prediction about the fids involved afterwards.
+	for _, c := range real {
+		if c.Panicked {
+			if !isErr || ecode != EFAULT {
+				find("wrong-reply", name+"/panic", "%s: backend panicked in %s, reply must be Rlerror(EFAULT), got %s", rc.String(req), c, rc.String(rep))
+			}
+			for _, f := range fidsOf(req) {
+				s.maybe[f] = true
+			}
+			v.onAny = nil
+			return
+		}
 	}
 	switch {
 	case v.unjudged:
@@ -716,6 +751,12 @@ func (s *sessModel) checkStep(find func(oracle, key, format string, args ...inte
 		return
 	case len(v.reject) > 0 && v.forward:
 		// attach with an unsafe name: rejected, Attach/GetAttr/Close permitted
+		// (if one of those fails, its errno is as good an answer)
+		for _, c := range real {
+			if c.Err != nil && isErr && ecode == errnoOf(c.Err) {
+				return
+			}
+		}
 		if !isErr || !inSet(ecode, v.reject) {
 			find("wrong-reply", name+"/reject", "%s must be rejected with errno %v, got %s", rc.String(req), v.reject, rc.String(rep))
 		}
@@ -727,7 +768,13 @@ func (s *sessModel) checkStep(find func(oracle, key, format string, args ...inte
 		return
 	case v.direct != nil:
 		if !rc.Equal(rep, v.direct) {
-			find("wrong-reply", name+"/direct", "%s: expected %s, got %s", rc.String(req), rc.String(v.direct), rc.String(rep))
+			st := ""
+			for _, f := range fidsOf(req) {
+				if m := s.fids[f]; m != nil {
+					st += fmt.Sprintf(" fid%d{x:%d xsize:%d xval:%q unknown:%v opened:%v}", f, m.x, m.xsize, m.xval, m.unknown, m.opened)
+				}
+			}
+			find("wrong-reply", name+"/direct", "%s: expected %s, got %s (model:%s)", rc.String(req), rc.String(v.direct), rc.String(rep), st)
 			return
 		}
 		if len(real) > 0 {
